@@ -29,6 +29,7 @@ type faultRepo struct {
 	def.Repository
 	failNext bool
 	faulted  bool
+	nfault   int
 	// corefault family: the k-th MarkAsDispatched that reaches the core fails: "cb" without effect, "ca" AFTER taking
 	// effect (the wrapper above then returns the error and does not call its timer hook); "-" = no fault
 	markPlan []string
@@ -51,10 +52,29 @@ func (f *faultRepo) MarkAsDispatched(ctx context.Context, id string) error {
 	return f.Repository.MarkAsDispatched(ctx, id)
 }
 
+// injected is an injected fault whose VALUE varies: plain, or one that errors.Is recognises as a context error (a
+// repository whose GetNext honours its context fails that way). The protocol reports all of them as "other".
+type injected struct{ also error }
+
+func (e injected) Error() string { return "injected fault" }
+func (e injected) Is(t error) bool {
+	return t == errInjected || (e.also != nil && t == e.also)
+}
+
+// ProtoTok: how the line protocol names this error (see proto.Err)
+func (e injected) ProtoTok() string { return "other" }
+
 func (f *faultRepo) GetNext(ctx context.Context) (def.Task, error) {
 	if f.failNext {
 		f.failNext = false
 		f.faulted = true
+		f.nfault++
+		switch f.nfault % 3 {
+		case 1:
+			return def.Task{}, injected{context.Canceled}
+		case 2:
+			return def.Task{}, injected{context.DeadlineExceeded}
+		}
 		return def.Task{}, errInjected
 	}
 	return f.Repository.GetNext(ctx)
